@@ -13,7 +13,7 @@ use oracle::{bch, tables};
 use serde_json::json;
 
 pub const ID: &str = "C04";
-pub const FAMS: [&str; 3] = ["cell", "auto-everything", "no-level-beyond-q"];
+pub const FAMS: [&str; 4] = ["cell", "auto-everything", "no-level-beyond-q", "option-walk"];
 
 pub fn jobs(ctx: &Ctx) -> Vec<Job> {
     let caps = &ctx.caps;
@@ -66,6 +66,17 @@ pub fn jobs(ctx: &Ctx) -> Vec<Job> {
                 ..Default::default()
             });
         }
+    }
+    // option walk: ONE payload built several times in a row on one thread, each time with one option forced,
+    // released or changed (mode among those that accept the payload, level, mask, version); every build is
+    // checked like any other. "Forced/automatic selection of each option" includes changing one's mind.
+    for i in 0..ctx.tier.pick(300usize, ctx.scale(20_000)) {
+        k += 1;
+        let class = i % 3;
+        let v = 1 + (mix(ctx.seed, k as u64) as usize) % if i % 5 == 0 { 40 } else { 9 };
+        // a length that fits version v at level H in byte mode, so that every mode/level/version step below has a symbol
+        let len = 1 + (mix(ctx.seed ^ 0x77, k as u64) as usize) % caps.cap(v, tables::H, 2).max(1);
+        jobs.push(Job { fam: FAMS[3], class, mode: None, level: None, version: Some(v), mask: None, len, gen: k % GEN_COUNT, seed: mix(ctx.seed, k as u64), ..Default::default() });
     }
     // no level given and more data than level Q can hold in version 40 (but not more than level L can):
     // the default is Q, so no symbol exists; a build that answers with a symbol of a lower level does
@@ -125,6 +136,35 @@ fn observe_beyond_q(st: &mut Stats, job: &Job) {
 }
 
 pub fn observe(ctx: &Ctx, st: &mut Stats, job: &Job) {
+    if job.fam == FAMS[3] {
+        // the walk: derive successive configurations from the job's seed; the payload stays the same
+        let mut rng = oracle::rng::Rng::new(job.seed ^ 0x3a1c);
+        let mut cur = job.clone();
+        let payload = job.payload();
+        cur.payload = Some(payload);
+        cur.fam = FAMS[0];
+        let steps = 4 + rng.below(5);
+        for _ in 0..steps {
+            match rng.below(4) {
+                0 => cur.mode = if rng.chance(1, 3) { None } else { Some(job.class.max(rng.below(3))) },
+                1 => cur.level = if rng.chance(1, 3) { None } else { Some(rng.below(4)) },
+                2 => cur.mask = if rng.chance(1, 3) { None } else { Some(rng.below(8)) },
+                _ => cur.version = if rng.chance(1, 4) { job.version } else { job.version.map(|v| (v + rng.below(3)).min(40)) },
+            }
+            let before = st.violations.len();
+            observe(ctx, st, &cur);
+            st.count("option_walk_builds", 1);
+            if st.violations.len() > before {
+                // replay must repeat the whole walk (the fault may depend on the builds before this one)
+                for v in &mut st.violations[before..] {
+                    v.detail = format!("{} (step of an option walk over one payload)", v.detail);
+                    v.job = job.to_json();
+                }
+                break;
+            }
+        }
+        return;
+    }
     let cfg = job.config();
     st.eval();
     if job.fam == FAMS[2] {
@@ -217,7 +257,7 @@ pub fn run(ctx: &Ctx) -> Report {
     let st = pool::run(&jobs, ctx.remaining(), |st, job, _| observe(ctx, st, job));
     let mut rep = Report::new(
         st,
-        "jobs = every (version, level, mask) cell (1280, enumerated completely) with the 16 forced/automatic option combinations rotating (level only left automatic in Q cells), + builds with nothing forced per (version, class) + builds with no level given and more data than level Q holds in version 40 (any symbol returned there is not level Q); both 15-bit format copies are read at the ISO positions and must equal BCH(15,5)(level,mask)^0x5412 computed by polynomial division, both 18-bit version blocks must equal BCH(18,6)(version), and version/level/mask/mode/size fields must equal what the symbol physically encodes (mode from the decoded mode indicator), what was forced, and level Q by default; distinct key = (options, len, payload hash); every case non-trivial",
+        "jobs = every (version, level, mask) cell (1280, enumerated completely) with the 16 forced/automatic option combinations rotating (level only left automatic in Q cells), + builds with nothing forced per (version, class) + option walks (one payload built 4-8 times in a row on one thread while one option at a time is forced, released or changed) + builds with no level given and more data than level Q holds in version 40 (any symbol returned there is not level Q); both 15-bit format copies are read at the ISO positions and must equal BCH(15,5)(level,mask)^0x5412 computed by polynomial division, both 18-bit version blocks must equal BCH(18,6)(version), and version/level/mask/mode/size fields must equal what the symbol physically encodes (mode from the decoded mode indicator), what was forced, and level Q by default; distinct key = (options, len, payload hash); every case non-trivial",
     );
     rep.exhaustive = Some(true);
     rep.expected_sets = vec![("version_level_mask", 1280), ("level_mask_words", 32), ("version_words", 34), ("forced_option_combos", 16)];
